@@ -1483,6 +1483,24 @@ class ModuleScope(VhdlScope):
             | {name.lower() for name in additional_reserved_names}
         )
 
+    def complete_setup(self):
+        # enumeration literals are printed as they are (format_literal), they
+        # never pass through the name assignment: reserve them first so that
+        # no other object of the entity gets the same name
+        def reserve_literals(scope):
+            for decl in scope._declarations.values():
+                obj = decl.obj
+                if isinstance(obj, type):
+                    if issubclass(obj, cohdl_enum.Enum):
+                        self._used_names.update(n.lower() for n in obj.__members__)
+                    elif issubclass(obj, cohdl_enum.DynamicEnum):
+                        self._used_names.update(m.name.lower() for m in obj.__members__)
+            for sub in scope._subscopes:
+                reserve_literals(sub)
+
+        reserve_literals(self)
+        super().complete_setup()
+
 
 class EntityScope(VhdlScope): ...
 
